@@ -6,6 +6,7 @@ Open Scope N_scope.
 Inductive sobs :=
 | ObErr (cls : bool * bool * bool * list bool)   (* not_found, owner, phase, conflict under 6 qualifier combinations *)
 | ObOk
+| ObFaulted (cls : bool * bool * bool * list bool)   (* the backing store rejected the write of this call *)
 | ObWritten (ver : option N) (owner : atom) (updated created : Z)
 | ObGot (r : res)
 | ObList (rs : list res).
@@ -55,12 +56,20 @@ Definition obs_match (full : bool) (o : op) (r : result) (ob : sobs) : bool :=
   | _, _ => false
   end.
 
+Definition would_write (r : result) : bool := match r with RWritten _ | ROk => true | _ => false end.
+
 Fixpoint seq_check_from (full : bool) (s : store) (c : list (Z * op * sobs)) : bool :=
   match c with
   | [] => true
   | (now, o, ob) :: c' =>
       let '(s', r, _) := apply now o s in
-      obs_match full o r ob && seq_check_from full s' c'
+      match ob with
+      | ObFaulted cls =>
+          (* every precondition held, the store refused: unclassified error, nothing changes *)
+          would_write r && cls_eqb (false, false, false, [false; false; false; false; false; false]) cls &&
+          seq_check_from full s c'
+      | _ => obs_match full o r ob && seq_check_from full s' c'
+      end
   end.
 
 Fixpoint mism_from {A} (chk : A -> bool) (i : N) (cs : list A) : list N :=
@@ -71,6 +80,20 @@ Fixpoint mism_from {A} (chk : A -> bool) (i : N) (cs : list A) : list N :=
 
 Definition seq_mismatches (cs : list (bool * list (Z * op * sobs))) : list N :=
   mism_from (fun c => seq_check_from (fst c) [] (snd c)) 0 cs.
+
+(* concurrent histories: wall-clock fields are not compared (the clock may advance while a call waits) *)
+Definition strip (r : res) : res :=
+  mkRes (r_ns r) (r_typ r) (r_id r) (r_ver r) (r_owner r) (r_phase r) (r_fins r) (r_labels r) 0 0 (r_spec r).
+
+Definition obs_match_nt (o : op) (r : result) (ob : sobs) : bool :=
+  match r, ob with
+  | RErr e, ObErr c => let '(ns, typ) := op_ns_typ o in cls_eqb (err_cls e ns typ) c
+  | ROk, ObOk => true
+  | RWritten w, ObWritten v ow _ _ => ver_eqb (r_ver w) v && N.eqb (r_owner w) ow
+  | RGot x, ObGot y => res_eqb (strip x) (strip y)
+  | RList xs, ObList ys => list_eqb res_eqb (map strip xs) (map strip ys)
+  | _, _ => false
+  end.
 
 (* ---- linearizability witness search -------------------------------------------------- *)
 
@@ -105,7 +128,7 @@ Fixpoint lin_search (fuel : nat) (full : bool) (s : store) (rem : list hop) : bo
              | h :: cands' =>
                  if (if minimal h rem then
                        let '(s', r, _) := apply 0%Z (h_op h) s in
-                       if obs_match full (h_op h) r (h_obs h)
+                       if obs_match_nt (h_op h) r (h_obs h)
                        then lin_search f full s' (remove_stamp (h_inv h) rem) else false
                      else false)
                  then true else try cands'
